@@ -57,7 +57,15 @@ func (w *W) c05Call(st *c05State, g string, in []byte, nd bool, cfg Config, fres
 	if nd {
 		api = "ParseND"
 	}
+	if !deep {
+		// (deep documents legitimately take long; everything else is bounded by the
+		// processor-time budget of one call)
+		armCall()
+	}
 	pj, err, pan := w.parseGuarded(in, cfg, nd, fresh)
+	if !deep {
+		disarmCall()
+	}
 	w.Eval(1)
 	key := api + "/" + genClass(g)
 	if pan != nil {
@@ -101,7 +109,9 @@ func (w *W) c05Call(st *c05State, g string, in []byte, nd bool, cfg Config, fres
 			return nil
 		})
 	} else {
+		armCall()
 		serr = sweepResult(pj)
+		disarmCall()
 		if serr == nil {
 			if _, e := walk.Adv(pj); e == walk.ErrSteps {
 				serr = e
@@ -347,6 +357,7 @@ func runC05(w *W) {
 		judge("valid-large", base)
 	}
 	w.genCarryThenNothing(judge)
+	w.genDenseSizes(judge)
 	// long stretches without a structural character, alone and right behind a buffer that fills
 	// at a quote (carried index), terminated and not
 	for _, L := range []int{65536, 131072, 200000} {
